@@ -160,20 +160,23 @@ static char *prog_buf;
 static void progress_open(const char *path) { int fd = open(path, O_RDWR | O_CREAT | O_TRUNC, 0644); if (fd < 0 || ftruncate(fd, 4096) != 0) return; prog_buf = mmap(NULL, 4096, PROT_READ | PROT_WRITE, MAP_SHARED, fd, 0); if (prog_buf == MAP_FAILED) prog_buf = NULL; close(fd); }
 static void violation(const char *rp, const char *fmt, ...) { va_list ap; if (nviol >= 6) return; snprintf(viols[nviol], sizeof viols[0], "%s", rp); va_start(ap, fmt); vsnprintf(violmsg[nviol], sizeof violmsg[0], fmt, ap); va_end(ap); nviol++; }
 
-static void one_point(int e, int state, int ck, int verbose)
+/* partner_is_orig: the second object of a two-object call is the ORIGINAL the stray copy was made from (e.g. s = a; slice(&a, .., &s)) */
+static void one_point(int e, int state, int ck, int partner_is_orig, int verbose)
 {
     struct entry *t = &TABLE[e]; int ab; char rp[64];
-    snprintf(rp, sizeof rp, "%d:%d:%d", e, state, ck);
+    if (partner_is_orig && (t->ko != t->kx || ck == C_RELOCATE)) return;
+    snprintf(rp, sizeof rp, "%d:%d:%d:%d", e, state, ck, partner_is_orig);
     if (prog_buf) snprintf(prog_buf, 4000, "R %s\n", rp);
     /* (1) the stray copy */
     shim_reset(); shim_in_lib++;
     make(t->kx, state, &ORIG); make_other(t->ko, &OTHER);
     stray_copy(t->kx, ck);
-    SHIM_CALL(ab, t->call(&STRAY, &OTHER));
+    SHIM_CALL(ab, t->call(&STRAY, partner_is_orig ? &ORIG : &OTHER));
     shim_in_lib = 0;
     points++;
-    if (verbose) printf("%s(%s = stray copy by %s of a %s %s pointer/object): %s\n", t->fn, t->pos, copyname[ck], statename[t->kx][state], kindname[t->kx], ab == 1 ? "abort()" : ab ? "assertion" : "returned");
-    if (ab != 1) violation(rp, "%s with %s being a stray copy (%s) of a %s %s object %s instead of aborting", t->fn, t->pos, copyname[ck], statename[t->kx][state], kindname[t->kx], ab ? "hit an assertion" : "returned");
+    if (verbose) printf("%s(%s = stray copy by %s of a %s %s pointer/object%s): %s\n", t->fn, t->pos, copyname[ck], statename[t->kx][state], kindname[t->kx], partner_is_orig ? ", the other argument is the original" : "", ab == 1 ? "abort()" : ab ? "assertion" : "returned");
+    if (ab != 1) violation(rp, "%s with %s being a stray copy (%s) of a %s %s object%s %s instead of aborting", t->fn, t->pos, copyname[ck], statename[t->kx][state], kindname[t->kx], partner_is_orig ? " and the other argument being the original it was copied from" : "", ab ? "hit an assertion" : "returned");
+    if (partner_is_orig) return;
     /* (2) the same call on the original, properly handled object must work (unless the call aborts for a documented reason of its own) */
     if (ck != C_RELOCATE) {
         shim_reset(); shim_in_lib++;
@@ -204,12 +207,13 @@ int main(int argc, char **argv)
     }
     if (!prop || strcmp(prop, "C20")) { fprintf(stderr, "stray: property not served\n"); return 2; }
     if (replay) {
-        if (sscanf(replay, "%d:%d:%d", &e, &st, &ck) != 3 || e < 0 || e >= NENT) return 4;
-        one_point(e, st, ck, 1);
+        int po = 0;
+        if (sscanf(replay, "%d:%d:%d:%d", &e, &st, &ck, &po) < 3 || e < 0 || e >= NENT) return 4;
+        one_point(e, st, ck, po, 1);
         if (nviol) { printf("VIOLATED: %s\n", violmsg[0]); return 1; }
         printf("no violation\n"); return 0;
     }
-    for (e = 0; e < NENT && nviol < 6; e++) for (st = 0; st < nstates[TABLE[e].kx] && nviol < 6; st++) for (ck = 0; ck < NCOPY && nviol < 6; ck++) one_point(e, st, ck, 0);
+    for (e = 0; e < NENT && nviol < 6; e++) for (st = 0; st < nstates[TABLE[e].kx] && nviol < 6; st++) for (ck = 0; ck < NCOPY && nviol < 6; ck++) { one_point(e, st, ck, 0, 0); one_point(e, st, ck, 1, 0); }
     /* coverage cross-check against the declarations found by gcc -aux-info */
     for (i = 0; declared_fns[i]; i++) {
         int found = 0, k;
